@@ -125,9 +125,9 @@ deriving Repr, DecidableEq
 /-- a message on a channel towards the parent: `final none` = (True, value), `final (some e)` = (False, e) -/
 inductive Msg where
   | info                         -- runtime info
-  | final (err : Option Exc)     -- process: ((ok, v), user_state); remote: the result tuple
+  | final (err : Option Exc) (ustate : Nat := 0)  -- process: ((ok, v), user_state); remote: the result tuple
   | noneResult                   -- remote: `send_msg(socket, None)` (local `result` never assigned)
-  | userState
+  | userState (v : Nat := 0)
   | item (counter : Nat)         -- persistent result message
   | endMarker (counter : Nat)
 deriving Repr, DecidableEq
@@ -140,6 +140,7 @@ structure St where
   comms : List Msg := []         -- process: messages put on `_comms`; remote: on the data socket
   results : List Msg := []       -- persistent: messages on the results pipe / data socket
   counter : Nat := 0
+  ustate : Nat := 0              -- the child's `user_state` (0 = the initial value, 1 = the last value assigned by the target)
   trace : List Nat := []         -- line events seen (line numbers), oldest first
   inputs : List Input := []      -- what recvArgs will yield
   left : Option Nat := none      -- line events still to pass before the async event fires
@@ -164,6 +165,7 @@ deriving Repr, DecidableEq
 structure Env where
   target : Target := .returns
   targetNone : Bool := false
+  assigns : Bool := false       -- the work assigns `self.user_state` (C16)
 deriving Repr
 
 def evalCond (st : St) (env : Env) : Cond → Bool
@@ -206,10 +208,12 @@ def doAct (env : Env) (st : St) (a : Act) : St × Option Out :=
   let done := { st with log := st.log ++ [a] }
   match a with
   | .callTarget =>
+    -- (C16: a state-assigning target assigns `user_state` after its first line - the pseudo line
+    --  event - and before it returns or raises)
     match lineEvent st 0 with
     | (st, some o) => (st, some o)
     | (st, none) =>
-      let done := { st with log := st.log ++ [a] }
+      let done := { st with log := st.log ++ [a], ustate := if env.assigns then 1 else st.ustate }
       match env.target with
       | .returns => (done, none)
       | .raisesUser => (done, some (.raised .user))
@@ -217,14 +221,14 @@ def doAct (env : Env) (st : St) (a : Act) : St × Option Out :=
   | .setOk => ({ done with result := some none }, none)
   | .setErrCur => ({ done with result := some st.cur }, none)
   | .sendInfo => ({ done with comms := st.comms ++ [.info] }, none)
-  | .sendFinalOk => ({ done with comms := st.comms ++ [.final none] }, none)
-  | .sendFinalErrCur => ({ done with comms := st.comms ++ [.final st.cur] }, none)
+  | .sendFinalOk => ({ done with comms := st.comms ++ [.final none st.ustate] }, none)
+  | .sendFinalErrCur => ({ done with comms := st.comms ++ [.final st.cur st.ustate] }, none)
   | .varNone => ({ done with var := none }, none)
   | .varUnreported => ({ done with var := some (some .nothing) }, none)
   | .varOk => ({ done with var := some none }, none)
   | .varErrCur => ({ done with var := some st.cur }, none)
-  | .sendVar => ({ done with comms := st.comms ++ [match st.var with | none => .noneResult | some r => .final r] }, none)
-  | .sendUserState => ({ done with comms := st.comms ++ [.userState] }, none)
+  | .sendVar => ({ done with comms := st.comms ++ [match st.var with | none => .noneResult | some r => .final r st.ustate] }, none)
+  | .sendUserState => ({ done with comms := st.comms ++ [.userState st.ustate] }, none)
   | .bumpCounter => ({ done with counter := st.counter + 1 }, none)
   | .sendItem => ({ done with results := st.results ++ [.item st.counter] }, none)
   | .sendEnd => ({ done with results := st.results ++ [.endMarker st.counter] }, none)
